@@ -10,6 +10,7 @@ import copy
 import numpy as np
 
 from ..core import Interp, Hooks, Violation
+from .. import fresh
 from .base import Scenario, solo_events, callers_of
 
 SEEDED = ('shot_noise', 'read_noise', 'dark_current', 'rule07_dark_current', 'power_spectrum')
@@ -30,6 +31,7 @@ class StochHooks(Hooks):
         self.first = {}
 
     def before(self, it, i, ev):
+        self.pending_fresh = fresh.describe_call(it, ev) if (ev.get('t', {}).get('fresh') and ev['fn'] in SEEDED) else None
         self.rng0 = _rng_state()
         self.state0 = np.random.get_state()
 
@@ -43,6 +45,11 @@ class StochHooks(Hooks):
                 it.violate('C18.isolated', {'fn': fn}, '%s (seed=%r) read or advanced the global numpy random state' % (fn, k.get('seed')), i)
             if tag.get('after_rng_fault'):
                 it.probe('seeded_after_reseed')
+        if getattr(self, 'pending_fresh', None) is not None:
+            # "a deterministic function of its arguments and seed": the same call on clones in a process that never ran anything else
+            pending, self.pending_fresh = self.pending_fresh, None
+            it.probe('pristine_process_comparison')
+            fresh.judge(it, i, ev, out, pending, 'C18.repro', {'fn': fn, 'what': 'pristine-process'})
         if fn in SEEDED and out.ok:
             # repeat = first (F6) and a different seed gives a different draw
             # "same arguments" means same values: a Fortran-ordered or transposed-view frame with equal content is the same frame
@@ -214,6 +221,7 @@ class StochHooks(Hooks):
 class StochasticScenario(Scenario):
     name = 'stochastic'
     prop = 'C18'
+    uses_fresh = True
     quick_runs = 1200
     thorough_runs = 120000
     audit_every = 8
@@ -233,7 +241,7 @@ class StochasticScenario(Scenario):
                    'seed=None (OS entropy) is never used: the simulator always passes seeds']
     must_hit = ['seeded_after_reseed', 'psd_nonsquare', 'psd_square', 'shot_bad_signal:gaussian', 'shot_bad_signal:poisson',
                 'moments:shot_poisson', 'moments:shot_gaussian', 'moments:read', 'dark_no_fpn', 'cosmic_hit', 'layout_twin',
-                'shot_tiny_negative', 'dark_rate_at_an_edge']
+                'shot_tiny_negative', 'dark_rate_at_an_edge', 'pristine_process_comparison']
     probe_names = must_hit + ['coldwarm_audit']
 
     # ---------------------------------------------------------------- generation
@@ -369,6 +377,8 @@ class StochasticScenario(Scenario):
             pending_fault = False
             out.append(ev)
             pos[c] += 1
+            if ev['fn'] in SEEDED and rng.random() < 0.2:
+                ev.setdefault('t', {})['fresh'] = True
             if ev['fn'] in SEEDED:
                 done[c].append(ev)
             if done[c] and rng.random() < 0.15:
@@ -393,6 +403,8 @@ class StochasticScenario(Scenario):
 
             def E(fn, a=None, k=None, t=None):
                 n[0] += 1
+                if fn in SEEDED and n[0] % 3 == 0:
+                    t = dict(t or {}, fresh=True)
                 e = {'c': 0, 'fn': fn, 'id': 'p%d' % n[0]}
                 if a is not None:
                     e['a'] = a
